@@ -35,7 +35,7 @@ PROP = dict(
                  "since the fix of F02/F03 all three engines show a word-less unselected syllable as its Bopomofo spelling "
                  "(F30), and the exact statement without HasWord is proved (text_shape / one_char_or_spelling / "
                  "provenance_general)",
-                 "ScoreBound (liveness only): at most 128 symbols, frequencies up to 2^23; whether the EDITOR can ask for a longer conversion is settled in Props/C05Bound.lean (check C05): with exact lookup and without list-closing API calls over the simple engine's over-full list every conversion inside a step is over at most B + max 2 K symbols (conversions_are_short: 39 + 2 with the documented limit and no long easy-symbol expansion), while under prefix lookup (fuzzy engine) buffers beyond 128 symbols ARE reachable by keys alone (fuzzy_unbounded_refuted; 1500 keys gave 1499 symbols on the real C API, converted without a crash), so for that configuration the bound is a genuine restriction of the liveness theorems",
+                 "ScoreBound (liveness only): at most 128 symbols, frequencies up to 2^23; whether the EDITOR can ask for a longer conversion is settled in Props/C05Bound.lean (check C05): since fix b92f99b (FX3/FX4) every key history - either lookup strategy, every engine - and every history without list-closing API calls over the simple engine's over-full list converts at most B + max 2 K symbols inside a step (conversions_are_short: 39 + 2 with the documented limit and no long easy-symbol expansion), and every history of valid operations keeps len <= B + 1 (bounded_everywhere_full); before that fix buffers beyond 128 symbols WERE reachable by keys alone under prefix lookup (1500 keys gave 1499 symbols on the real C API, converted without a crash), so the bound is no longer a restriction of the liveness theorems",
                  "no premise on the empty key any more: find_best_phrase answers None for an empty range (F39 repaired at "
                  "the engine; empty_key_harmless)",
                  "debug profile (overflow checks on), as the harness is built"],
